@@ -12,3 +12,7 @@ import Helm.Props.C01
 #print axioms Helm.Props.C01.counterexample_success_not_recorded
 #print axioms Helm.Props.C01.counterexample_atomic_exceeds_limit
 #print axioms Helm.Props.C01.C01_full_is_false
+#print axioms Helm.Props.C01.upgrade_success_spec
+#print axioms Helm.Props.C01.install_success_spec
+#print axioms Helm.Props.C01.action_skeletons_are_the_models
+#print axioms Helm.Props.C01.upgrade_order_facts
